@@ -273,12 +273,16 @@ def c11_gen(rng):
     if kind == "tuple":
         m = rng.randint(1, d)
         op = {"op": "getitem", "h": 0, "index": [sub(shape[i]) for i in range(m)], "out": 1}
+        if rng.random() < 0.3:
+            op["ik"] = rng.choice(["int64", "int32", "intp"])      # integer entries as numpy integer scalars
     elif kind == "bare":
         op = {"op": "getitem", "h": 0, "index": [sub(shape[0])], "out": 1, "bare": True}
     elif kind == "select":
         ax = rng.randrange(d)
         names = init["names"] or [f"axis{i}" for i in range(d)]
         op = {"op": "select", "h": 0, "axis": names[ax] if rng.random() < 0.3 else ax, "_axis": ax, "index": sub(shape[ax]), "out": 1}
+        if rng.random() < 0.3:
+            op["ik"] = rng.choice(["int64", "int32", "intp"])
     else:
         op = {"op": "invalid", "what": rng.choice(["too_many_indices", "neg_step"]), "h": 0}
     return {"kind": "histn", "ops": [init, op], "tags": ["nd", "kind:" + kind, f"d:{d}"]}
